@@ -881,8 +881,7 @@ void mmd_export_token_html(DString * out, const char * source, token * t, scratc
 					temp_short = scratch->footnote_being_printed;
 
 					if (scratch->extensions & EXT_RANDOM_FOOT) {
-						srand(scratch->random_seed_base + temp_short);
-						temp_short = rand() % 32000 + 1;
+						temp_short = random_anchor_from_seed(scratch->random_seed_base + temp_short);
 					}
 
 					printf(" <a href=\"#fnref:%d\" title=\"%s\" class=\"reversefootnote\">&#160;&#8617;&#xfe0e;</a>", temp_short, LC("return to body"));
@@ -1673,8 +1672,7 @@ parse_citation:
 					// This is a re-use of a previously used note
 
 					if (scratch->extensions & EXT_RANDOM_FOOT) {
-						srand(scratch->random_seed_base + temp_short);
-						temp_short3 = rand() % 32000 + 1;
+						temp_short3 = random_anchor_from_seed(scratch->random_seed_base + temp_short);
 					} else {
 						temp_short3 = temp_short;
 					}
@@ -1685,8 +1683,7 @@ parse_citation:
 					// This is the first time this note was used
 
 					if (scratch->extensions & EXT_RANDOM_FOOT) {
-						srand(scratch->random_seed_base + temp_short);
-						temp_short3 = rand() % 32000 + 1;
+						temp_short3 = random_anchor_from_seed(scratch->random_seed_base + temp_short);
 					} else {
 						temp_short3 = temp_short;
 					}
@@ -2548,8 +2545,7 @@ void mmd_export_footnote_list_html(DString * out, const char * source, scratch_p
 			int footnote_id = i + 1;
 
 			if (scratch->extensions & EXT_RANDOM_FOOT) {
-				srand(scratch->random_seed_base + footnote_id);
-				footnote_id = rand() % 32000 + 1;
+				footnote_id = random_anchor_from_seed(scratch->random_seed_base + footnote_id);
 			}
 
 			printf("<li id=\"fn:%d\">\n", footnote_id);
